@@ -192,16 +192,23 @@ class Endp:
 
     def l3(self, proto, l4):
         r = self.fuzz
+        cmac = self.cmac
+        if r is not None and proto in (P_TCP, P_UDP) and r.random() < 0.06:
+            # multi-path: frames of one flow may arrive through another first-hop router (redundant gateways, failover);
+            # a flow is its addresses and ports, never its Ethernet source
+            if "cmac2" not in self.__dict__:
+                self.cmac2 = bytes([self.cmac[0] & 0xFE]) + bytes(r.getrandbits(8) for _ in range(5))
+            cmac = self.cmac2
         if self.v6:
             if r is not None and r.random() < 0.5:
-                return eth(self.smac, self.cmac, ET_IP6, ip6(self.cip, self.sip, proto, l4, hlim=r.choice([1, 2, 64, 128, 255]), tc=r.getrandbits(8),
+                return eth(self.smac, cmac, ET_IP6, ip6(self.cip, self.sip, proto, l4, hlim=r.choice([1, 2, 64, 128, 255]), tc=r.getrandbits(8),
                                                              fl=r.getrandbits(20)))
-            return eth(self.smac, self.cmac, ET_IP6, ip6(self.cip, self.sip, proto, l4, hlim=self.ttl))
+            return eth(self.smac, cmac, ET_IP6, ip6(self.cip, self.sip, proto, l4, hlim=self.ttl))
         if r is not None and r.random() < 0.5:
             o = rnd_ip4_opts(r) if r.random() < 0.3 else b""
-            return eth(self.smac, self.cmac, ET_IP4, ip4(self.cip, self.sip, proto, l4, ttl=r.choice([1, 2, 64, 128, 255]), ident=r.getrandbits(16),
+            return eth(self.smac, cmac, ET_IP4, ip4(self.cip, self.sip, proto, l4, ttl=r.choice([1, 2, 64, 128, 255]), ident=r.getrandbits(16),
                                                          frag=r.choice([0, 0x4000]), tos=r.getrandbits(8), opts=o, ihl=5 + len(o) // 4))
-        return eth(self.smac, self.cmac, ET_IP4, ip4(self.cip, self.sip, proto, l4, ttl=self.ttl))
+        return eth(self.smac, cmac, ET_IP4, ip4(self.cip, self.sip, proto, l4, ttl=self.ttl))
 
     def udp(self, sp, dp, pl, cs=None):
         r = self.fuzz
